@@ -1,9 +1,132 @@
-(* C17 - placeholder; theorems are added as proofs land *)
-From Coq Require Import ZArith List.
-From NutsV Require Import lib.Fp model.Kernel model.KernelF64.
+(* C17 - Vector kernels agree with scalar arithmetic for every length and value.
+   Statements only; proofs in proofs/Kernel_facts.v.  The model (model/Kernel.v) is generic in the
+   lane count L and the number type; these theorems are about its instance over Q (exact
+   arithmetic: the plain element-by-element formula) and its binary64 instance. *)
+From Coq Require Import ZArith QArith List Bool.
+From NutsV Require Import lib.Fp model.Kernel model.KernelF64 proofs.Kernel_facts.
 Import ListNotations.
-Example C17_model_runs :
+
+(* unrolled body, leftover vectors and scalar tail partition [0,n): every element exactly once *)
+Theorem C17_partition :
+  forall L n : nat, (1 <= L)%nat ->
+    (ngroups L n * 4 * L + nrest L n * L + ntail L n = n /\ nrest L n < 4 /\ ntail L n < L)%nat.
+Proof. exact partition. Qed.
+Print Assumptions C17_partition.
+
+Theorem C17_elementwise_length :
+  forall (L : nat) (T : Type) (add mul : T -> T -> T) (neg : T -> T) (fma : T -> T -> T -> T) (fe : bool),
+    (forall x y, length x = length y -> length (k_multiply T mul L x y) = length x) /\
+    (forall a x y, length x = length y -> length (k_axpy T add mul fma fe L a x y) = length x) /\
+    (forall s c p v, length p = length v ->
+       length (fst (k_std_norm_flow T add mul neg fma L s c p v)) = length p /\
+       length (snd (k_std_norm_flow T add mul neg fma L s c p v)) = length p) /\
+    (forall eps p g v, length p = length g -> length p = length v ->
+       length (k_std_norm_grad_flow T add mul fma L eps p g v) = length p).
+Proof. exact elementwise_length. Qed.
+Print Assumptions C17_elementwise_length.
+
+(* element-wise kernels, every lane count, every length *)
+Theorem C17_multiply_spec :
+  forall (L : nat) (x y : list Q), length x = length y ->
+    Qeql (k_multiply Q Qmult L x y) (map2 Qmult x y) /\ length (k_multiply Q Qmult L x y) = length x.
+Proof. exact k_multiply_spec. Qed.
+Print Assumptions C17_multiply_spec.
+
+Theorem C17_axpy_spec :
+  forall (fe : bool) (L : nat) (a : Q) (x y : list Q), length x = length y ->
+    Qeql (k_axpy Q Qplus Qmult Qfma fe L a x y) (map2 (fun xi yi => a * xi + yi)%Q x y) /\
+    length (k_axpy Q Qplus Qmult Qfma fe L a x y) = length x.
+Proof. exact k_axpy_spec. Qed.
+Print Assumptions C17_axpy_spec.
+
+Theorem C17_std_norm_flow_spec :
+  forall (L : nat) (s c : Q) (p v : list Q), length p = length v ->
+    let r := k_std_norm_flow Q Qplus Qmult Qopp Qfma L s c p v in
+    Qeql (fst r) (map2 (fun pi vi => pi * c + vi * s)%Q p v) /\
+    Qeql (snd r) (map2 (fun pi vi => pi * (- s) + vi * c)%Q p v) /\
+    length (fst r) = length p /\ length (snd r) = length p.
+Proof. exact k_std_norm_flow_spec. Qed.
+Print Assumptions C17_std_norm_flow_spec.
+
+Theorem C17_std_norm_grad_flow_spec :
+  forall (L : nat) (eps : Q) (p g v : list Q), length p = length g -> length p = length v ->
+    Qeql (k_std_norm_grad_flow Q Qplus Qmult Qfma L eps p g v)
+         (map3 (fun pi gi vi => vi + eps * (pi + gi))%Q p g v) /\
+    length (k_std_norm_grad_flow Q Qplus Qmult Qfma L eps p g v) = length p.
+Proof. exact k_std_norm_grad_flow_spec. Qed.
+Print Assumptions C17_std_norm_grad_flow_spec.
+
+(* reductions: for every power-of-two lane count (pulp: 1, 2, 4, 8), fused or not, every length *)
+Theorem C17_vector_dot_spec :
+  forall (fe : bool) (L k : nat), L = (2 ^ k)%nat ->
+  forall x y : list Q, length x = length y ->
+    (k_vector_dot Q 0 Qplus Qmult Qfma fe L x y == dotl x y)%Q.
+Proof. exact k_vector_dot_spec. Qed.
+Print Assumptions C17_vector_dot_spec.
+
+Theorem C17_scalar_prods2_spec :
+  forall (fe : bool) (L k : nat), L = (2 ^ k)%nat ->
+  forall p1 p2 x y : list Q, length p1 = length p2 -> length p1 = length x -> length p1 = length y ->
+    let r := k_scalar_prods2 Q 0 Qplus Qmult Qfma fe L p1 p2 x y in
+    (fst r == dotl (map2 Qplus p1 p2) x)%Q /\ (snd r == dotl (map2 Qplus p1 p2) y)%Q.
+Proof. exact k_scalar_prods2_spec. Qed.
+Print Assumptions C17_scalar_prods2_spec.
+
+Theorem C17_scalar_prods3_spec :
+  forall (fe : bool) (L k : nat), L = (2 ^ k)%nat ->
+  forall p1 n1 p2 x y : list Q,
+    length p1 = length n1 -> length p1 = length p2 -> length p1 = length x -> length p1 = length y ->
+    let r := k_scalar_prods3 Q 0 Qplus Qminus Qmult Qfma fe L p1 n1 p2 x y in
+    (fst r == dotl (map3 (fun a b c => a - b + c)%Q p1 n1 p2) x)%Q /\
+    (snd r == dotl (map3 (fun a b c => a - b + c)%Q p1 n1 p2) y)%Q.
+Proof. exact k_scalar_prods3_spec. Qed.
+Print Assumptions C17_scalar_prods3_spec.
+
+Theorem C17_sq_norm_sum_spec :
+  forall x y : list Q,
+    (k_sq_norm_sum Q 0 Qplus Qmult x y == sumQ (map2 (fun a b => (a + b) ^ 2)%Q x y))%Q.
+Proof. exact k_sq_norm_sum_spec. Qed.
+Print Assumptions C17_sq_norm_sum_spec.
+
+(* the power-of-two hypothesis is necessary: with 3 lanes the lane reduction drops a lane *)
+Theorem C17_three_lanes_refuted :
+  (k_vector_dot Q 0 Qplus Qmult Qfma true 3 [1; 1; 1] [1; 1; 1] == 2)%Q /\
+  (dotl [1; 1; 1] [1; 1; 1] == 3)%Q.
+Proof. exact k_vector_dot_three_lanes_wrong. Qed.
+Print Assumptions C17_three_lanes_refuted.
+
+(* finiteness tests and NaN propagation on binary64 *)
+Theorem C17_all_finite_spec :
+  forall x : list f64,
+    f_all_finite x = forallb is_finite x /\
+    (f_all_finite x = true <-> Forall (fun v => is_finite v = true) x).
+Proof. exact f_all_finite_spec. Qed.
+Print Assumptions C17_all_finite_spec.
+
+Theorem C17_all_finite_nonzero_spec :
+  forall x : list f64,
+    f_all_finite_nonzero x = forallb (fun v => is_finite v && negb (feq v fzero)) x /\
+    (f_all_finite_nonzero x = true <->
+     Forall (fun v => is_finite v = true /\ feq v fzero = false) x).
+Proof. exact f_all_finite_nonzero_spec. Qed.
+Print Assumptions C17_all_finite_nonzero_spec.
+
+Theorem C17_nan_propagates :
+  (forall a b : f64, is_nan a = true -> is_nan (fadd a b) = true) /\
+  (forall a b : f64, is_nan b = true -> is_nan (fadd a b) = true) /\
+  (forall a b : f64, is_nan a = true -> is_nan (fmul a b) = true) /\
+  (forall a b : f64, is_nan b = true -> is_nan (fmul a b) = true) /\
+  (forall a b c : f64, is_nan a = true -> is_nan (ffma a b c) = true) /\
+  (forall a b c : f64, is_nan b = true -> is_nan (ffma a b c) = true) /\
+  (forall a b c : f64, is_nan c = true -> is_nan (ffma a b c) = true).
+Proof.
+  repeat split; [exact fadd_nan_l | exact fadd_nan_r | exact fmul_nan_l | exact fmul_nan_r
+                | exact ffma_nan_1 | exact ffma_nan_2 | exact ffma_nan_3].
+Qed.
+Print Assumptions C17_nan_propagates.
+
+Example C17_nonvacuous :
   run_kernel 3 4 true [] [[4607182418800017408; 4611686018427387904]; [4613937818241073152; 4616189618054758400]]%Z
   = [[4622382067542392832%Z]].
 Proof. vm_compute. reflexivity. Qed.
-Print Assumptions C17_model_runs.
+Print Assumptions C17_nonvacuous.
